@@ -15,6 +15,7 @@ import pendulum
 
 from pendulum.constants import MONTHS_PER_YEAR
 from pendulum.duration import Duration
+from pendulum.duration import _native_microseconds
 from pendulum.helpers import precise_diff
 
 
@@ -338,7 +339,9 @@ class Interval(Duration, Generic[_T]):
         """
         Return the Interval as a Duration.
         """
-        return Duration(seconds=self.total_seconds())
+        # The exact length: total_seconds() is a float and loses
+        # the microseconds of intervals beyond ~285 years.
+        return Duration(microseconds=_native_microseconds(self))
 
     def __iter__(self) -> Iterator[_T]:
         return self.range("days")
